@@ -551,6 +551,9 @@ def _code_matrix(case, dm, times, clause_prefix):
         # about an axis must identify it
         lo_, hi_ = float(times.min()), float(times.max())
         decoy = lo_ + (hi_ - lo_) * ((times - lo_) / (hi_ - lo_)) ** 2
+        uniform = np.linspace(lo_, hi_, times.size)
+        if not np.allclose(np.sort(times), uniform, rtol=0, atol=1e-9 * (hi_ - lo_)):
+            decoy = uniform  # (the coarsest sampling with these end points: a remembered sampling interval would fold too early)
         try:
             with np.errstate(all="ignore"):
                 dm.megacomplex[0].calculate_matrix(dm, gaxis, decoy)
